@@ -73,6 +73,7 @@ type Task struct {
 
 	quiescing    bool
 	quiesceLimit int64
+	stallUntil   int64 // > 0: a slow callback; not runnable before that many scheduling points have passed (see Stall)
 	prio         int64
 	lastSite     int
 	steps        int64
@@ -344,7 +345,7 @@ func (s *Sched) caseReady(t *Task, c chanCase) bool {
 func (s *Sched) eligible(t *Task) bool {
 	switch t.state {
 	case stRunnable:
-		return true
+		return t.stallUntil == 0 || s.steps >= t.stallUntil
 	case stMutex:
 		return t.mu.free(t.rlock)
 	case stCond, stDone:
@@ -422,6 +423,30 @@ func (s *Sched) pick() *Task {
 			}
 		}
 		at, haveTimer := s.nextTimer()
+		{
+			// A stalled task (slow application callback, see Stall) waits for
+			// the others; once nobody but quiescing tasks can run its stall
+			// ends early (earliest deadline first).
+			canRun := false
+			for _, t := range el {
+				if !t.quiescing {
+					canRun = true
+					break
+				}
+			}
+			if !canRun {
+				var st *Task
+				for _, t := range s.tasks {
+					if t.state == stRunnable && t.stallUntil > s.steps && (st == nil || t.stallUntil < st.stallUntil) {
+						st = t
+					}
+				}
+				if st != nil {
+					st.stallUntil = 0
+					continue
+				}
+			}
+		}
 		if s.quiescing != nil {
 			// Quiesce: tasks that are quiescing (several may be, e.g. a driver
 			// and a harness callback inside the persister) must not be chosen
@@ -601,7 +626,7 @@ func (s *Sched) yield(site int) {
 		s.finish()
 		parkForever()
 	}
-	if me.state == stRunnable && s.quiescing == nil && !s.fair && s.noPreempt == 0 &&
+	if me.state == stRunnable && me.stallUntil == 0 && s.quiescing == nil && !s.fair && s.noPreempt == 0 &&
 		s.cfg.Policy.Sticky > 0 && s.chance(s.cfg.Policy.Sticky, "sticky") {
 		return
 	}
@@ -873,7 +898,7 @@ func Quiesce(maxSteps int64, maxJumps int) bool {
 		// is anybody else (who is not quiescing, too) eligible?
 		other := false
 		for _, t := range s.tasks {
-			if t != me && !t.quiescing && s.eligible(t) {
+			if t != me && !t.quiescing && (s.eligible(t) || (t.state == stRunnable && t.stallUntil > 0)) {
 				other = true
 				break
 			}
@@ -901,6 +926,24 @@ func Quiesce(maxSteps int64, maxJumps int) bool {
 			s.quiescing = nil
 		}
 	}
+}
+
+// Stall keeps the calling task busy doing nothing while the other tasks take n
+// scheduling points (a slow application callback, a stalled lower level).
+// Unlike Quiesce it does not make the task look idle to anybody: a Quiesce of
+// another task does not report "idle" while a task is stalled.  When nobody
+// else can run the stall ends early.
+//
+//go:norace
+func Stall(n int64) {
+	if !active || n <= 0 {
+		return
+	}
+	s := sched
+	me := s.cur
+	me.stallUntil = s.steps + n
+	s.yield(-4)
+	me.stallUntil = 0
 }
 
 // OthersEligible reports whether any task other than the caller could run now.
